@@ -171,7 +171,9 @@ def check_binders(run: Run, ctx: TermCtx, m, cls: ClassInfo, rule: str) -> None:
     if vl is None:
         run.fail(rule, None, cls.node, "_rewrite_captured_vars has no visit_Lambda: lambda parameters are replaced by captured values")
         return
-    kinds = {n.attr for n in own_nodes(vl) if isinstance(n, ast.Attribute) and n.attr in LAMBDA_ARG_KINDS}
+    from ..lib import attrs_in_call_closure
+
+    kinds = attrs_in_call_closure(m, vl, LAMBDA_ARG_KINDS)
     missing = [k for k in LAMBDA_ARG_KINDS if k not in kinds]
     run.check(not missing, rule, vl, vl.node, "all five kinds of lambda parameters are shadowed", f"visit_Lambda does not shadow {'/'.join(missing)} parameters: a captured variable of the same name replaces them")
     _paired(run, ctx, vl, rule)
